@@ -506,7 +506,10 @@ fn spellings(fs: &MFs, cwd: &str, target: &str, rng: &mut Rng) -> Vec<String> {
     for (lp, n) in &fs.nodes {
         if let MKind::Link(_) = n.kind {
             if let Ok(dest) = fs.resolve("", lp, true) {
-                if !dest.is_empty() && dest != target && parent(&dest) == tparent && matches!(fs.nodes.get(&dest).map(|n| &n.kind), Some(MKind::Dir)) {
+                // (only through a SEARCHABLE directory: looking up ".." in a directory without search permission
+                // fails in the kernel but not in glibc's realpath, so implementations that canonicalise first
+                // legitimately differ there)
+                if !dest.is_empty() && dest != target && parent(&dest) == tparent && matches!(fs.nodes.get(&dest), Some(n) if n.kind == MKind::Dir && n.mode & 0o100 != 0) {
                     out.push(format!("{}/../{}", rel(cwd, lp), tname));
                 }
             }
@@ -521,7 +524,7 @@ fn spellings(fs: &MFs, cwd: &str, target: &str, rng: &mut Rng) -> Vec<String> {
         3 => {
             // dir/../dir/rest — only through a real directory (".." is physical)
             match base.find('/') {
-                Some(i) if !base.starts_with("..") && matches!(fs.nodes.get(&join(cwd, &base[..i])).map(|n| &n.kind), Some(MKind::Dir)) => format!("{}/../{}", &base[..i], base),
+                Some(i) if !base.starts_with("..") && matches!(fs.nodes.get(&join(cwd, &base[..i])), Some(n) if n.kind == MKind::Dir && n.mode & 0o100 != 0) => format!("{}/../{}", &base[..i], base),
                 _ => base.clone(),
             }
         }
